@@ -125,7 +125,7 @@ func eval(cs Case, x *fw.Rec) {
 	base := cs.Base
 	baseRes, _ := wm.RunList(base.Infos(), false)
 	if baseRes.Err != nil {
-		if cs.Borrowed && strings.Contains(baseRes.Err.Error(), "cannot convert named port for an IP destination") {
+		if cs.Borrowed && wm.IsNamedPortOnIPErr(baseRes.Err) {
 			x.Count("skipped_documented_named_port_error", 1)
 			return
 		}
@@ -214,7 +214,7 @@ func eval(cs Case, x *fw.Rec) {
 	wantX, errB := expoReport(base.Infos(), nil)
 	gotX, errX := expoReport(infos, ren)
 	if errB != nil {
-		if !strings.Contains(errB.Error(), "cannot convert named port for an IP destination") {
+		if !wm.IsNamedPortOnIPErr(errB) {
 			x.Fail("list --exposure fails on a world that plain list analyses", "", cs.Desc+": "+errB.Error())
 		}
 		return
